@@ -145,3 +145,35 @@ Print Assumptions C11_char_boundaries.
 Example C11_char_boundaries_nonvacuous : exists p c,
   regcomp (chars [40; 233; 41]%N) = Ok (Some p) /\ regexec p 0%Z (chars [97; 8364; 233; 10]%N) 2 0%Z = (Ok (Some [(4, 6); (4, 6)]%Z), c).
 Proof. eexists. eexists. split; [vm_compute; reflexivity | vm_compute; reflexivity]. Qed.
+
+(* ---- "rejected or compiled" is a property of the pattern string ALONE: the static flag re_bad of regex.c ----------
+   regex.c reports a malformed construct through the file-scope flag re_bad (the only writable file-scope variable of
+   regex.c / rset.c / rstr.c; list in ReStateDefs.v).  ReStateDefs.v threads the flag, statement by statement, through
+   rnode_grp / rnode_atom / rnode_seq / rnode_parse and regcomp.  For EVERY byte string, fuel and incoming flag value:
+   the parser only ever sets the flag (it never reads or clears it) ... *)
+From NV Require Import ReStateDefs ReStateProps.
+Theorem C11_parser_flag_threaded : forall f s st,
+  rnode_parse_st f s st = lift (rnode_parse f s) (st || rnode_parse_bad f s)%bool.
+Proof. exact parse_st_pure. Qed.
+Print Assumptions C11_parser_flag_threaded.
+
+(* ... and regcomp clears it on entry: whatever value an earlier call left in the flag, regcomp answers as the pure
+   function of the pattern, and the value it leaves behind is again a function of the pattern alone *)
+Theorem C11_regcomp_ignores_stale_flag : forall pat st, regcomp_st pat st = (regcomp pat, flag_after pat).
+Proof. exact regcomp_st_pure. Qed.
+Print Assumptions C11_regcomp_ignores_stale_flag.
+
+(* every sequence of compilations in one process, from any initial flag: call by call the pure answers *)
+Theorem C11_regcomp_seq_pure : forall pats st, fst (regcomp_seq pats st) = map regcomp pats.
+Proof. exact regcomp_seq_pure. Qed.
+Print Assumptions C11_regcomp_seq_pure.
+
+(* the theorem is about the statement "re_bad = 0;" at the top of regcomp: the same model with the flag cleared in the
+   "if (re_bad || *pat)" branch instead refuses the valid ((a+b)) right after the rejected ((a{2,1})) *)
+Theorem C11_late_reset_refuted : exists pats, fst (run_seq (regcomp_gen false) pats false) <> map regcomp pats.
+Proof. exact late_reset_refuted. Qed.
+Print Assumptions C11_late_reset_refuted.
+
+Example C11_seq_nonvacuous :
+  map (fun r => match r with Ok (Some _) => 1%N | Ok None => 0%N | _ => 2%N end) (fst (regcomp_seq bad_then_good true)) = [0%N; 1%N].
+Proof. exact entry_reset_example. Qed.
